@@ -201,6 +201,56 @@ fn is_expanded_log_block(b: &syn::Block) -> bool {
     false
 }
 
+/// N4: arguments of a logging call that could panic when evaluated (indexing/slicing, arithmetic, casts of those, calls
+/// other than `len`/`simple_hex`). Logging evaluates its arguments only when the record is enabled; the extraction keeps
+/// such arguments as `let _ = &(ARG);` so that their safety stays an obligation (conservative: as if always enabled).
+fn log_args_to_keep(tokens: proc_macro2::TokenStream) -> Option<Vec<Expr>> {
+    struct Risky(bool);
+    impl<'a> syn::visit::Visit<'a> for Risky {
+        fn visit_expr(&mut self, e: &'a Expr) {
+            match e {
+                Expr::Index(_) | Expr::Range(_) => self.0 = true,
+                Expr::Binary(b) => {
+                    if matches!(b.op, syn::BinOp::Add(_) | syn::BinOp::Sub(_) | syn::BinOp::Mul(_) | syn::BinOp::Div(_) | syn::BinOp::Rem(_) | syn::BinOp::Shl(_) | syn::BinOp::Shr(_)) {
+                        self.0 = true;
+                    }
+                }
+                Expr::Unary(u) => { if matches!(u.op, syn::UnOp::Neg(_)) { self.0 = true; } }
+                Expr::MethodCall(mc) => { if mc.method == "unwrap" || mc.method == "expect" { self.0 = true; } }
+                _ => {}
+            }
+            syn::visit::visit_expr(self, e);
+        }
+    }
+    let parser = syn::punctuated::Punctuated::<Expr, syn::Token![,]>::parse_terminated;
+    match syn::parse::Parser::parse2(parser, tokens) {
+        Ok(args) => {
+            let mut keep = vec![];
+            for a in args.iter().skip(1) {
+                // named arguments `x = expr`
+                let val: &Expr = if let Expr::Assign(asg) = a { &asg.right } else { a };
+                let mut r = Risky(false);
+                syn::visit::Visit::visit_expr(&mut r, val);
+                if r.0 { keep.push(val.clone()); }
+            }
+            Some(keep)
+        }
+        Err(_) => None,
+    }
+}
+/// the `format_args!(..)` inside rustc's expansion of a `log::…!` call
+fn expanded_log_format_args(b: &syn::Block) -> Vec<proc_macro2::TokenStream> {
+    struct F(Vec<proc_macro2::TokenStream>);
+    impl<'a> syn::visit::Visit<'a> for F {
+        fn visit_macro(&mut self, m: &'a syn::Macro) {
+            if path_last(&m.path) == "format_args" { self.0.push(m.tokens.clone()); }
+        }
+    }
+    let mut f = F(vec![]);
+    syn::visit::Visit::visit_block(&mut f, b);
+    f.0
+}
+
 fn stmt_is_log(s: &Stmt, desc: &str) -> bool {
     match s {
         Stmt::Macro(sm) => {
@@ -709,6 +759,25 @@ impl<'a> VisitMut for Norm<'a> {
             new.append(&mut pending_after);
             if stmt_is_log(&s, self.desc) {
                 self.stats.bump("N4.log_stmt");
+                let toks: Vec<proc_macro2::TokenStream> = match &s {
+                    Stmt::Macro(sm) => vec![sm.mac.tokens.clone()],
+                    Stmt::Expr(Expr::Macro(em), _) => vec![em.mac.tokens.clone()],
+                    Stmt::Expr(Expr::Block(eb), _) => expanded_log_format_args(&eb.block),
+                    _ => vec![],
+                };
+                for t in toks {
+                    match log_args_to_keep(t) {
+                        Some(keep) => {
+                            for mut k in keep {
+                                // the kept argument is ordinary code: normalise it like the rest of the body
+                                self.visit_expr_mut(&mut k);
+                                new.push(parse_quote!(let _ = &(#k);));
+                                self.stats.bump("N4.log_argument_kept_evaluated");
+                            }
+                        }
+                        None => die("unsupported", &format!("N4: cannot parse logging arguments in {}", self.desc)),
+                    }
+                }
                 continue;
             }
             // stray `;` left by macro expansion
@@ -929,7 +998,14 @@ impl<'a> VisitMut for Norm<'a> {
         if let Expr::Macro(em) = e {
             if is_log_macro(&em.mac) {
                 log_args_pure(&em.mac, self.desc);
-                *e = parse_quote!(());
+                let keep = log_args_to_keep(em.mac.tokens.clone()).unwrap_or_else(|| die("unsupported", &format!("N4: cannot parse logging arguments in {}", self.desc)));
+                if keep.is_empty() {
+                    *e = parse_quote!(());
+                } else {
+                    let n = keep.len();
+                    *e = parse_quote!({ #(let _ = &(#keep);)* });
+                    for _ in 0..n { self.stats.bump("N4.log_argument_kept_evaluated"); }
+                }
                 self.stats.bump("N4.log_expr");
                 return;
             }
